@@ -133,7 +133,7 @@ Proof. vm_compute. repeat split; reflexivity. Qed.
     The statement holds for every configuration, threshold_to_diff_deeper = 0 included (there the
     encoded run takes a pair of instances of different classes apart, and Obj.ObjModel.tagfix puts
     the one type_changes of the pair back, as _diff does before it looks at any threshold). *)
-From DD Require Obj.ObjValue Obj.ObjModel Obj.ObjFaithful Obj.ObjExamples Delta.DeltaExamples.
+From DD Require Obj.ObjValue Obj.ObjModel Obj.ObjFacts Obj.ObjFaithful Obj.ObjExamples Delta.DeltaExamples.
 
 Theorem C04_objects_entries_resolve :
   forall hatom udiff ops c (t1 t2 : Obj.ObjValue.ovalue),
@@ -169,6 +169,35 @@ Example C04_objects_threshold_zero :
   (forall e, In e (fst Obj.ObjExamples.thr0_run) -> Obj.ObjFaithful.ofaithful Obj.ObjExamples.thr0_t1 Obj.ObjExamples.thr0_t2 e).
 Proof. exact (conj Obj.ObjExamples.thr0_kinds Obj.ObjExamples.thr0_faithful). Qed.
 Print Assumptions C04_objects_threshold_zero.
+
+(* a changed value really differs (by class and attribute values, [opy_eqv]), for every values_changed entry
+   of the encoded run that mutual_add_removes_to_become_value_changes did not manufacture; such an entry is
+   an entry of the result *)
+Theorem C04_objects_changed_really_differ_partial :
+  forall hatom udiff ops c (t1 t2 : Obj.ObjValue.ovalue),
+    thr_num c <= thr_den c -> Obj.ObjValue.owf t1 = true -> Obj.ObjValue.owf t2 = true ->
+    forall e, In e (fst (diff hatom udiff ops Obj.ObjModel.nopaths Obj.ObjModel.nopaths c
+                           (Obj.ObjValue.enc t1) (Obj.ObjValue.enc t2) [] [])) -> ekind e = KValue ->
+      In (Obj.ObjModel.dec_entry e) (fst (Obj.ObjModel.orun hatom udiff ops c t1 t2)) /\
+      forall a b, Obj.ObjModel.oet1 (Obj.ObjModel.dec_entry e) = Some a -> Obj.ObjModel.oet2 (Obj.ObjModel.dec_entry e) = Some b ->
+                  Obj.ObjValue.opy_eqv a b = false.
+Proof. intros. eapply Obj.ObjFaithful.orun_changed_differ; eassumption. Qed.
+Print Assumptions C04_objects_changed_really_differ_partial.
+
+(* the full statement is false, as for plain values (finding K17) *)
+Theorem C04_objects_changed_really_differ_refuted :
+  exists e, In e (fst (Obj.ObjModel.orun (fun _ => []) (fun _ _ => []) k17_ops (mkCfg false 33 100 true)
+                         Obj.ObjExamples.ok17_t1 Obj.ObjExamples.ok17_t2)) /\
+            Obj.ObjModel.oekind e = Obj.ObjModel.OK KValue /\ Obj.ObjModel.oet1 e = Obj.ObjModel.oet2 e /\ Obj.ObjModel.oet1 e <> None.
+Proof. exact Obj.ObjExamples.ok17_refuted. Qed.
+Print Assumptions C04_objects_changed_really_differ_refuted.
+
+(* equality by class and attribute values is exactly Python == of the encodings *)
+Theorem C04_objects_equality_is_encoded_equality :
+  forall a b : Obj.ObjValue.ovalue, Obj.ObjValue.owf a = true -> Obj.ObjValue.owf b = true ->
+    (Obj.ObjValue.opy_eqv a b = true <-> py_eqv (Obj.ObjValue.enc a) (Obj.ObjValue.enc b) = true).
+Proof. intros a b Wa Wb. split; [apply Obj.ObjFacts.opy_eqv_enc|apply Obj.ObjFacts.enc_py_eqv; assumption]. Qed.
+Print Assumptions C04_objects_equality_is_encoded_equality.
 
 (* non-vacuity: a pair of nested values with instances at dict values, in a list and as attribute
    values, whose run has 9 entries: values_changed x2 (one two attribute levels deep),
